@@ -92,6 +92,7 @@ Proof. repeat split; vm_compute; reflexivity. Qed.
 (** A trailing ';' ends the statement like the end of input does. *)
 Theorem c06_terminator_tokens : is_dml_terminator tkEOS = true /\ is_dml_terminator tkEOF = true.
 Proof. split; reflexivity. Qed.
+Print Assumptions c06_terminator_tokens.
 
 (** Concrete instances (evaluated, not quantified): every documented non-idempotent construct
     is refused, plain mutations are accepted, spelling does not matter. *)
